@@ -110,7 +110,7 @@ func be32any(v *big.Int) []byte { // low 32 bytes, big-endian
 	return append(make([]byte, 32-len(b)), b...)
 }
 
-var c06XClasses = []string{"valid", "valid", "valid_neg", "alias_x+p", "nonsubgroup", "offcurve", "const", "uniform", "valid_bitflip"}
+var c06XClasses = []string{"valid", "valid", "valid_neg", "alias_x+p", "nonsubgroup", "offcurve", "const", "uniform", "valid_bitflip", "y_near_half"}
 
 // genX32 draws 32 bytes for the x half by class.
 func genX32(t *rapid.T) (b []byte, class string, pt hx.RPt) {
@@ -136,6 +136,12 @@ func genX32(t *rapid.T) (b []byte, class string, pt hx.RPt) {
 		b = be32any(c06Consts[name])
 	case "uniform":
 		b = hx.ExpandBytes(seed, "c06u", 32)
+	case "y_near_half": // an abscissa whose two ordinates are next to p/2 (they agree in their upper limbs); subgroup or not
+		xv := c17Case{Mode: "point", Kind: "y_near_half", E: uint32(seed % 100000), Seed: seed >> 20 % 4000}.value()
+		if seed>>40%2 == 1 {
+			xv.Sub(ref.P, xv).Mod(xv, ref.P)
+		}
+		b = be32any(xv)
 	case "valid_bitflip":
 		b = append([]byte(nil), comp[:]...)
 		b[rapid.IntRange(0, 31).Draw(t, "flip_byte")] ^= 1 << rapid.IntRange(0, 7).Draw(t, "flip_bit")
@@ -347,6 +353,16 @@ func TestC06(t *testing.T) {
 			c06Part.EvalCase(s, c06Case{Form: "readpoint", Bytes: hx.HexBytes(xb), Class: "sweep:" + name, Chunk: -1})
 			for _, name2 := range c06ConstNames {
 				c06Part.EvalCase(s, c06Case{Form: "uncompressed", Bytes: hx.HexBytes(append(append([]byte(nil), xb...), be32any(c06Consts[name2])...)), Class: "sweep:" + name + "," + name2})
+			}
+		}
+	}
+	for k := 0; k < 24; k++ { // abscissas whose ordinates are the nearest ones to p/2, with and without limb-aligned offsets
+		xv := c17Case{Mode: "point", Kind: "y_near_half", E: uint32(97*k + 13*hx.Shard()), Seed: uint64(k % 4)}.value()
+		xb := be32any(xv)
+		c06Part.EvalCase(s, c06Case{Form: "compressed", Bytes: hx.HexBytes(xb), Class: "forced:y_near_half"})
+		if y := ref.YFromX(xv); y != nil {
+			for _, yy := range []*big.Int{y, new(big.Int).Sub(ref.P, y)} {
+				c06Part.EvalCase(s, c06Case{Form: "uncompressed", Bytes: hx.HexBytes(append(append([]byte(nil), xb...), be32any(yy)...)), Class: "forced:y_near_half"})
 			}
 		}
 	}
